@@ -1629,6 +1629,8 @@ class Dataset(
             """
             if new_field_names is None:
                 return None
+            if isinstance(new_field_names, str):
+                new_field_names = [new_field_names]
 
             new2orig_renaming_dict = {
                 v: k
